@@ -392,8 +392,21 @@ DIRECTED = [
 ]
 
 
+def _exits(code=3):
+  raise SystemExit(code)
+
+
 def run_kinds(spec, acc):
   for i, rng in acc.cases(spec):
+    if i % 97 == 5:
+      # an earlier build of this thread was interrupted by a non-Exception BaseException that the
+      # program caught (sys.exit() inside a callable, Ctrl-C): later builds are ordinary builds
+      try:
+        fdl.build(fdl.Config(kinds.node, a=[fdl.Config(_exits)]))
+      except SystemExit:
+        acc.obs('builds_interrupted_by_base_exception')
+      except Exception:  # pylint: disable=broad-except
+        pass      # judged by the builds that follow
     if i < len(DIRECTED):
       fn, setpos, setko, va_len, extra, mode = DIRECTED[i]
       run_binding(rng, acc, fn, {fn.__name__}, set(setpos), list(setko), va_len, extra, mode)
